@@ -39,7 +39,15 @@ MANIFEST = {
             "every nesting level of hierarchies with >= 3 levels of non-commuting rotations / "
             "reflections and curved deepest surfaces; each flag is judged against a surface normal "
             "computed independently from the OrangeInput (local point, gradient, rotations composed "
-            "deepest first) and the track is followed with point location to the world exit.",
+            "deepest first) and the track is followed with point location to the world exit. A "
+            "grazing / near-parallel ray family exists for every surface class with a "
+            "direction-dependent cut-off (aligned, centred and generically rotated cylinders: angle "
+            "to the axis 1e-7…1e-1 rad; needle and wide cones: angle to the generator line; aligned "
+            "and general planes: 1e-9…1e-2 rad; general quadrics with leading coefficient around "
+            "min_a) inside rods / slabs / cones 1000x longer than wide, with 28 point-location probes "
+            "per step; evidence counts, per class, the rays whose first TRUE crossing (found "
+            "independently by scan + bisection) is the grazed surface, and a zero count is reported "
+            "as coverage:grazing-first:<class>.",
     "design_ref": "DESIGN.md §6 C03",
     "note": "Partial: the nested trace is proved for one find/cross step (first change of the nested "
             "location = distance and level of find_next_step); iterating it needs the re-initialised "
@@ -206,6 +214,94 @@ class PGeo:
         if not (nn > 1e-9) or not math.isfinite(nn):
             return None
         return [c / nn for c in n]
+
+    @staticmethod
+    def surf_class(ty):
+        if ty in ("px", "py", "pz"):
+            return "plane-aligned"
+        if ty == "p":
+            return "plane-general"
+        if ty in ("cxc", "cyc", "czc"):
+            return "cyl-centered"
+        if ty in ("cx", "cy", "cz"):
+            return "cyl-aligned"
+        if ty in ("kx", "ky", "kz"):
+            return "cone-aligned"
+        if ty in ("sq", "gq"):
+            return "quadric"
+        return "sphere"
+
+    def first_change(self, pos, dr, tmax):
+        """independent of the tracker: the smallest path length t* at which the nested point
+        location along pos + t dr changes (log-spaced scan, then bisection), and the classes of
+        the surfaces whose sense flips there.  Returns (t*, {(level, surface index, class)}) or
+        (None, set())."""
+        at = lambda t: [pos[i] + t * dr[i] for i in range(3)]
+        c0, _ = self.locate(pos, delta=0.0)
+        if c0 is None or isinstance(c0, tuple):
+            return None, set()
+        lo, hi = 0.0, None
+        N = 120
+        for k in range(N + 1):
+            t = tmax * 10 ** (-7.0 + 7.0 * k / N)
+            c, _ = self.locate(at(t), delta=0.0)
+            if c != c0:
+                hi = t
+                break
+            lo = t
+        if hi is None:
+            return None, set()
+        for _ in range(60):
+            mid = 0.5 * (lo + hi)
+            c, _ = self.locate(at(mid), delta=0.0)
+            if c == c0:
+                lo = mid
+            else:
+                hi = mid
+        c1, _ = self.locate(at(hi), delta=0.0)
+        classes = set()
+        if c1 is not None and not isinstance(c1, tuple):
+            L = 0
+            while L < min(len(c0), len(c1)) and c0[L] == c1[L]:
+                L += 1
+            if L < len(c0) and L < len(c1) and c0[L][0] == c1[L][0]:
+                un = self.univ[c0[L][0]]
+                a, b = at(lo), at(hi)
+                for k in range(L):
+                    u, v = c0[k]
+                    uu = self.univ[u]
+                    if uu["t"] == "rect":
+                        tr = uu["tr"][3 * v:3 * v + 3]
+                        tr = tr if any(tr) else []
+                    else:
+                        tr = uu["dau"][v][1]
+                    a, b = self.down(tr, a), self.down(tr, b)
+                if un["t"] == "rect":
+                    classes.add((L, -1, "plane-aligned"))
+                else:
+                    for si, (ty, dat) in enumerate(un["surfs"]):
+                        if (quadric(ty, dat, a) > 0) != (quadric(ty, dat, b) > 0):
+                            classes.add((L, si, self.surf_class(ty)))
+        return 0.5 * (lo + hi), classes
+
+    def nearest_surface(self, p):
+        """index and class of the surface of the top universe nearest to the point
+        (first-order distance |f| / |grad f|)"""
+        un = self.univ[0]
+        best = None
+        h = 1e-6 * max(1.0, max(abs(c) for c in p))
+        for si, (ty, dat) in enumerate(un["surfs"]):
+            f = quadric(ty, dat, p)
+            g = 0.0
+            for ax in range(3):
+                a = list(p); b = list(p)
+                a[ax] += h; b[ax] -= h
+                g += ((quadric(ty, dat, a) - quadric(ty, dat, b)) / (2 * h)) ** 2
+            if g > 0:
+                dist = abs(f) / math.sqrt(g)
+                if best is None or dist < best[0]:
+                    best = (dist, si, self.surf_class(ty))
+        return best
 
     def is_curved(self, chain, sl, surf):
         un = self.univ[chain[sl][0]] if sl < len(chain) else None
@@ -623,6 +719,112 @@ def gen_rect_json(rng, path):
     return Rw, (centre, 0.5 * math.sqrt(sum(c * c for c in W)))
 
 
+GRAZE_CLASSES = ["cyl-aligned", "cyl-centered", "cone-aligned", "plane-aligned", "plane-general",
+                 "quadric"]
+
+
+def log_uniform(rng, lo, hi):
+    return lo * (hi / lo) ** rng.unit()
+
+
+def gen_grazing(rng, cls, n_rays):
+    """one geometry whose single material volume is long / thin enough that a grazing ray's FIRST
+    true crossing can be the grazed surface (rod 1000 radii long, needle cone, slab 1000 x its
+    thickness), plus prepared rays starting inside it at a small distance from that surface and
+    making a log-uniformly distributed small angle with it (cylinders: angle to the axis
+    1e-7…1e-1 rad; cones: to the generator line; planes: to the plane 1e-9…1e-2 rad; the
+    generically rotated rod / cone is a general quadric with leading coefficient ~ angle^2 around
+    min_a = 1e-10).  Returns (tokens, R, info) with info['rays'] = [(pos, dir, cls)]."""
+    perm = [0, 1, 2]
+    rng.shuffle(perm)
+    M = [[0.0] * 3 for _ in range(3)]
+    for r_ in range(3):
+        M[r_][perm[r_]] = 1.0
+    if M[0][0] * (M[1][1] * M[2][2] - M[1][2] * M[2][1]) - M[0][1] * (M[1][0] * M[2][2] - M[1][2] * M[2][0]) \
+            + M[0][2] * (M[1][0] * M[2][1] - M[1][1] * M[2][0]) < 0:
+        M[0] = [-c for c in M[0]]
+    M = [v for row in M for v in row]
+    t = [float(rng.range(-8, 8)) + 0.25 * rng.below(4) for _ in range(3)]
+    shape_kind = "rod"
+    if cls == "cyl-centered":
+        t = [0.0, 0.0, 0.0]
+    elif cls == "quadric":
+        M = rnd_rotation(rng)
+        while max(abs(c) for c in M) > 0.97:     # generic: no (near-)permutation
+            M = rnd_rotation(rng)
+        shape_kind = rng.choice(["rod", "cone"])
+    elif cls == "cone-aligned":
+        shape_kind = "cone"
+        if rng.chance(2, 3):       # needle cone: stays a ConeAligned only without a rotation
+            M = [1.0, 0.0, 0.0, 0.0, 1.0, 0.0, 0.0, 0.0, 1.0]
+        else:
+            shape_kind = "widecone"
+    elif cls == "plane-aligned":
+        shape_kind = "slab"
+    elif cls == "plane-general":
+        shape_kind = "slab"
+        M = rnd_rotation(rng)
+        while max(abs(c) for c in M) > 0.97:
+            M = rnd_rotation(rng)
+    if shape_kind == "rod":
+        r = 0.5 + 1.5 * rng.unit()
+        hh = 500.0 * r if r <= 1.0 else 500.0
+        shp = ["cyl", fmt(r), fmt(hh)]
+    elif shape_kind == "cone":
+        rlo, rhi, hh = 0.05 + 0.1 * rng.unit(), 0.8 + 0.6 * rng.unit(), 500.0
+        shp = ["cone", fmt(rlo), fmt(rhi), fmt(hh)]
+    elif shape_kind == "widecone":
+        rlo, rhi, hh = 0.5 + 0.5 * rng.unit(), 20.0 + 20.0 * rng.unit(), 50.0 + 50.0 * rng.unit()
+        shp = ["cone", fmt(rlo), fmt(rhi), fmt(hh)]
+        shape_kind = "cone"
+    else:
+        hz = 0.2 + 0.8 * rng.unit()
+        shp = ["box", "500.0", "500.0", fmt(hz)]
+    toks = ["nunits", "1", "unit", "g", "sph", "1500.0", "bg", "1", "nmat", "1",
+            "tr", "tx"] + [fmt(c) for c in M] + [fmt(c) for c in t] + shp + ["ndau", "0"]
+    up = lambda v: [sum(M[3 * r_ + c] * v[c] for c in range(3)) for r_ in range(3)]
+    rays = []
+
+    def angle(k, d, lrem, lo, hi):
+        """log-uniform over the whole range; every other ray restricted to angles for which the
+        grazed surface is reached well before the far end (so that it IS the first crossing)"""
+        if k % 2 == 0:
+            return log_uniform(rng, lo, hi)
+        return log_uniform(rng, min(hi * 0.5, max(lo, 2.5 * d / lrem)), hi)
+
+    for k_ in range(n_rays):
+        phi = rng.unit() * 2 * math.pi
+        if shape_kind == "rod":
+            d = r * 10 ** (-(0.3 + 2.0 * rng.unit()))
+            rho, z0 = r - d, -hh * (0.2 + 0.7 * rng.unit())
+            th = angle(k_, d, hh - z0, 1e-7, 1e-1)
+            psi = phi + (rng.unit() * 2 - 1) * 1.0
+            pl = [rho * math.cos(phi), rho * math.sin(phi), z0]
+            dl = [math.sin(th) * math.cos(psi), math.sin(th) * math.sin(psi), math.cos(th)]
+        elif shape_kind == "cone":
+            tana = (rhi - rlo) / (2 * hh)
+            al = math.atan(tana)
+            z0 = -hh * (0.8 * rng.unit())
+            rz = rlo + (z0 + hh) * tana
+            d = rz * 10 ** (-(0.3 + 1.7 * rng.unit()))
+            th = angle(k_, d, hh - z0, 1e-7, 1e-1)
+            psi = phi + (rng.unit() * 2 - 1) * 0.3
+            pl = [(rz - d) * math.cos(phi), (rz - d) * math.sin(phi), z0]
+            dl = [math.sin(al + th) * math.cos(psi), math.sin(al + th) * math.sin(psi), math.cos(al + th)]
+        else:
+            d = hz * 10 ** (-(0.3 + 1.4 * rng.unit()))
+            th = angle(k_, d, 380.0, 1e-9, 1e-2)
+            sgn = rng.choice([1.0, -1.0])
+            pl = [(rng.unit() * 2 - 1) * 100.0, (rng.unit() * 2 - 1) * 100.0, sgn * (hz - d)]
+            dl = [math.cos(th) * math.cos(phi), math.cos(th) * math.sin(phi), sgn * math.sin(th)]
+        pg = up(pl)
+        pg = [pg[i] + t[i] for i in range(3)]
+        dg = up(dl)
+        nn = math.sqrt(sum(c * c for c in dg))
+        rays.append((pg, [c / nn for c in dg], cls, th))
+    return toks, 1500.0, {"rays": rays, "graze": cls}
+
+
 # --------------------------------------------------------------------------- one geometry
 class GeoRun:
     def __init__(self, ctx, exe, name, geo_line, json_path, extent):
@@ -636,6 +838,7 @@ class GeoRun:
                       "limited_checks": 0, "setdir_on_boundary": 0, "setdir_deeper": 0,
                       "reentrant": 0, "max_level": 0, "exits": 0, "init_fail": 0, "moves": 0}
         self.fail = []       # (key, what, info)
+        self.overlap = None
 
     def start(self):
         self.sess = Session(self.exe)
@@ -663,9 +866,11 @@ class GeoRun:
             self.stats["near_skipped"] += 1
             return True
         if isinstance(loc, tuple):
-            self.fail.append(("geometry-overlap:" + self.name,
-                              "volumes overlap at a probe point (input not a partition)",
-                              {"point": p, "located": str(loc)}))
+            # the INPUT is not a partition at this point (two volume definitions are true, e.g.
+            # `inner_c` and `c` of the bundled universes.org.json): the property's premise (valid
+            # geometry) does not hold there; not a navigation result — counted, named in evidence
+            self.stats["overlap_probes"] = self.stats.get("overlap_probes", 0) + 1
+            self.overlap = str(loc)
             return True
         if loc != chain:
             key = key_hint or ("nav-location-mismatch:" + self.name)
@@ -676,7 +881,7 @@ class GeoRun:
             return False
         return True
 
-    def track(self, rng, pos, dr, max_cross):
+    def track(self, rng, pos, dr, max_cross, straight=False, dense=0, graze_key=None):
         s, st_ = self.sess, self.stats
         t0 = len(s.lines)
         o = s.ask("init %s %s" % (" ".join(map(hx, pos)), " ".join(map(hx, dr))))
@@ -766,9 +971,11 @@ class GeoRun:
                     return
                 # probes along the step: just after the start, the middle, just before the end
                 eps = 20 * self.pg.tol * max(1.0, max(abs(c) for c in pos0))
-                for tt in (min(eps, d / 4), d / 2, d - min(eps, d / 4), d * rng.unit()):
+                tts = [min(eps, d / 4), d / 2, d - min(eps, d / 4), d * rng.unit()]
+                tts += [d * (k + 0.5) / dense for k in range(dense)]
+                for tt in tts:
                     ok = self.probe([pos0[i] + tt * dir0[i] for i in range(3)], chain,
-                                    "inside a step (t=%g of %g)" % (tt, d), t0, hint)
+                                    "inside a step (t=%g of %g)" % (tt, d), t0, hint or graze_key)
                     if not ok:
                         return
                 hint = None
@@ -788,7 +995,12 @@ class GeoRun:
                             st3 = parse_state(o)
                             st_["ops"] += 1
                             d3 = st3["prop"][0]
-                            if abs(d3 - d * (1 - frac)) > 1e-6 * max(1.0, self.extent) \
+                            if st3["nf"] != st["nf"] and abs(d3 - d * (1 - frac)) <= 1e-9 * max(1.0, d):
+                                # same distance, other surface id: two coincident surfaces
+                                # (e.g. a daughter surface on the parent's boundary) — the
+                                # property speaks about volumes and distances only
+                                st_["coincident_next_surface"] = st_.get("coincident_next_surface", 0) + 1
+                            elif abs(d3 - d * (1 - frac)) > 1e-6 * max(1.0, self.extent) \
                                     or st3["nf"] != st["nf"]:
                                 self.fail.append(("move-internal-desync:" + self.name,
                                                   "distance to boundary after move_internal + find "
@@ -799,13 +1011,13 @@ class GeoRun:
                         else:
                             st = st2
                             d = d * (1 - frac)
-                elif k == 1 and n_setdir < 4:
+                elif k == 1 and n_setdir < 4 and not straight:
                     # change direction inside the volume (after an optional partial move)
                     st, abort = set_dir(rnd_unit_vec(rng))
                     if abort:
                         return
                     continue
-                elif k == 2 and st["sl"] == "-":
+                elif k == 2 and st["sl"] == "-" and not straight:
                     # move to a nearby point of the same volume (harness-only safety query)
                     so = s.ask("safety", model=False)
                     sf = fl(so.split()[1]) if so.startswith("safety") else 0.0
@@ -829,7 +1041,7 @@ class GeoRun:
                                       {"geo": self.geo_line, "ops": s.lines[t0:]}))
                     return
             # --- on a boundary: maybe change direction (the set_dir clause of the property)
-            if st["sl"] != "-":
+            if st["sl"] != "-" and not straight:
                 # (a) directions sampled densely near the tangent plane of the surface (within
                 #     ±20° of it, both sides), judged against a normal computed independently from
                 #     the OrangeInput (local point, gradient, rotations sl-1 … 0)
@@ -949,6 +1161,26 @@ class GeoRun:
             if len(self.fail) > 5:
                 break
 
+    def run_grazing(self, rng, rays, max_cross=50):
+        """prepared grazing / near-parallel rays: straight flight, dense point-location probes on
+        every step; the independent first change of the location along the ray classifies
+        whether the grazed surface is the first true crossing (coverage)"""
+        for pos, dr, cls, th in rays:
+            tstar, flipped = self.pg.first_change(pos, dr, 3200.0)
+            near = self.pg.nearest_surface(pos)
+            self.stats["graze_rays:" + cls] = self.stats.get("graze_rays:" + cls, 0) + 1
+            # the grazed surface = the surface nearest to the start point; it must be of the
+            # intended class and be THE surface whose sense flips at the first true crossing
+            if near is not None and near[2] == cls and (0, near[1], cls) in flipped:
+                self.stats["graze_first:" + cls] = self.stats.get("graze_first:" + cls, 0) + 1
+                band = "graze_first_band:" + cls       # angle decade of the counted rays
+                self.stats[band + ":1e%d" % math.floor(math.log10(th))] = \
+                    self.stats.get(band + ":1e%d" % math.floor(math.log10(th)), 0) + 1
+            self.track(rng, pos, dr, max_cross, straight=True, dense=24,
+                       graze_key="grazing-skip:" + cls)
+            if len(self.fail) > 8:
+                break
+
     def finish(self):
         self.sess.close()
         s = self.sess
@@ -998,6 +1230,12 @@ def run(ctx):
         toks, R, info = gen_deep_spec(rng)
         jp = os.path.join(tmp, "deep%d.json" % k)
         geos.append(("deep%d" % k, "geo build %s 1e-5 %s" % (jp, " ".join(toks)), jp, R, info))
+    for rep in range(1 if quick else 5):
+        for cls in GRAZE_CLASSES:
+            toks, R, info = gen_grazing(rng, cls, 28 if quick else 60)
+            jp = os.path.join(tmp, "graze-%s-%d.json" % (cls, rep))
+            geos.append(("graze-%s-%d" % (cls, rep), "geo build %s 1e-5 %s" % (jp, " ".join(toks)),
+                         jp, R, info))
     for k in range(6 if quick else 40):
         jp = os.path.join(tmp, "rect%d.json" % k)
         Rw, aim = gen_rect_json(rng, jp)
@@ -1006,6 +1244,7 @@ def run(ctx):
     n_tracks_rand = 40 if quick else 250
     total = {}
     diverged, all_fail, skipped, crashed = [], [], [], []
+    input_overlaps = {}
     evaluations, distinct = 0, set()
     samples = []
     corpus_lines = []
@@ -1079,17 +1318,34 @@ def run(ctx):
             continue
         if R is None:
             gr.extent = extent_of(jp)
-        gr.run_tracks(rng, n_tracks_bundled if R is None else n_tracks_rand)
+        if info and info.get("rays"):
+            gr.run_grazing(rng, info["rays"])
+            gr.run_tracks(rng, 6)
+        else:
+            gr.run_tracks(rng, n_tracks_bundled if R is None else n_tracks_rand)
         lines, outs = gr.finish()
         for k, v in gr.stats.items():
             total[k] = max(total.get(k, 0), v) if k == "max_level" else total.get(k, 0) + v
         all_fail += gr.fail
+        if gr.overlap:
+            input_overlaps[name] = gr.overlap
         for l in lines[2:]:
             distinct.add(l)
         if len(samples) < 4 and len(lines) > 6:
             samples.append({"geo": geo_line[:200], "ops": lines[2:8], "impl": [o[:160] for o in outs[2:8]]})
         diff_model(lines, outs, name)
 
+    # coverage of the grazing family: per surface class, rays whose first TRUE crossing (found
+    # independently of the tracker) is the grazed surface
+    graze_cov = {c: (total.get("graze_first:" + c, 0), total.get("graze_rays:" + c, 0))
+                 for c in GRAZE_CLASSES}
+    for c, (nf, nr) in graze_cov.items():
+        if nf == 0 and not any(c in sk for sk in skipped):
+            ctx.violation("coverage:grazing-first:" + c,
+                          f"no grazing ray of class {c} had the grazed surface as its first true "
+                          f"crossing ({nr} rays generated): the check would not notice a "
+                          "direction-dependent cut-off error of that surface class",
+                          {"class": c, "rays": nr}, found_input=False)
     if not ps["model_ok"]:
         broken.append("model driver did not build")
     if diverged:
@@ -1129,6 +1385,9 @@ def run(ctx):
                 "independent point-location oracle",
         "geometries": len(geos) - len(skipped), "skipped": skipped, "build_crashes": crashed[:3],
         "oracle": total, "oracle_failures": len(all_fail), "diverging": diverged[:3],
+        "input_overlaps": input_overlaps,
+        "grazing_first_crossing": {c: {"first_is_grazed": a_, "rays": b_}
+                                   for c, (a_, b_) in graze_cov.items()},
         "samples": samples, "corpus_ops": len(corpus_lines),
         "correspondence_broken": broken,
         "explanation": "proof covers the tracker control logic over recorded per-face answers, the "
